@@ -55,7 +55,7 @@ var specC07 = reg(&checkSpec{
 	rule:     "non-trivial: >=1 client task failed (definitively or ambiguously) and >=2 leaders were elected, with >=3 successful updates; distinct by trace hash",
 	nontrivial: func(c *cluster) bool {
 		failed := c.stats.has("upd-lost") || c.stats.has("upd-notleader") || c.stats.has("upd-inprogress") || c.stats.has("upd-closed")
-		return failed && c.led.leadersElected >= 2 && c.stats.classes["upd-ok"] >= 3
+		return failed && c.led.leadersElected >= 2 && c.stats.count("upd-ok") >= 3
 	},
 })
 
@@ -63,7 +63,7 @@ var specC08 = reg(&checkSpec{
 	prop: "C08", profiles: []string{"member", "member", "transfer"},
 	deciding: []string{"config-safety", "leader-unique", "leader-complete", "commit-stable"},
 	rule:     "non-trivial: >=2 configuration entries appended by leaders and >=2 leaders elected; distinct by trace hash",
-	nontrivial: func(c *cluster) bool { return c.stats.classes["leader-config-change"] >= 2 && c.led.leadersElected >= 2 },
+	nontrivial: func(c *cluster) bool { return c.stats.count("leader-config-change") >= 2 && c.led.leadersElected >= 2 },
 })
 
 var specC11 = reg(&checkSpec{
@@ -102,10 +102,20 @@ var specC19 = reg(&checkSpec{
 	deciding: []string{"info-order", "info-monotonic", "info-config"},
 	rule:     "non-trivial: a node that answered >=2 status reports processed a snapshot installation, a truncation or a configuration revert; distinct by trace hash",
 	nontrivial: func(c *cluster) bool {
-		return c.stats.classes["info"] >= 2 && (c.stats.has("wire-install-ok") || c.stats.has("truncation") || c.stats.has("config-reverted"))
+		return c.stats.count("info") >= 2 && (c.stats.has("wire-install-ok") || c.stats.has("truncation") || c.stats.has("config-reverted"))
 	},
 })
 
+var specC06 = reg(&checkSpec{
+	prop: "C06", profiles: []string{"member", "member", "repl", "crash"},
+	deciding: []string{"durable-majority", "ack-durable"},
+	rule:     "non-trivial: a leader commit advance was judged while the configuration had just changed or non-voters were present; distinct by trace hash",
+	nontrivial: func(c *cluster) bool {
+		return c.stats.has("census-config-just-changed") || c.stats.has("census-with-nonvoters")
+	},
+})
+
+func TestVerif_C06(t *testing.T) { corpusReplay(t, specC06); runSpec(t, specC06) }
 func TestVerif_C05v(t *testing.T) { corpusReplay(t, specC05v); runSpec(t, specC05v) }
 func TestVerif_C07(t *testing.T)  { corpusReplay(t, specC07); runSpec(t, specC07) }
 func TestVerif_C08(t *testing.T)  { corpusReplay(t, specC08); runSpec(t, specC08) }
